@@ -31,6 +31,24 @@ import (
 
 func init() { props["C18"] = runC18 }
 
+// distinct model states and model transitions visited by the scenarios of this run (evidence: states / transitions)
+var c18StatesMu sync.Mutex
+var c18States = map[string]struct{}{}
+var c18Transitions int
+
+func c18NoteStates(run *Run, fps []string) {
+	c18StatesMu.Lock()
+	for _, f := range fps {
+		c18States[f] = struct{}{}
+	}
+	c18Transitions += len(fps)
+	run.mu.Lock()
+	run.Extra["states"] = len(c18States) + 1 // plus the initial state
+	run.Extra["transitions"] = c18Transitions
+	run.mu.Unlock()
+	c18StatesMu.Unlock()
+}
+
 // ---- the scripted upstream ------------------------------------------------------------------------------------------------
 
 type c18UpConn struct {
@@ -313,8 +331,10 @@ func c18RunScenario(run *Run, sc *c18Scenario) {
 		Delivered  [][]string `json:"delivered"`
 		Expect     []int      `json:"expect"`     // per op: how many events the op delivers in the model
 		ConnsAfter []int      `json:"connsAfter"` // per op: live connections after the op in the model
+		States     []string   `json:"states"`     // per executed model step: the registry part of the state reached
 	}
 	_ = json.Unmarshal(raw, &want)
+	c18NoteStates(run, want.States)
 	total := func() int {
 		n := 0
 		for s := 0; s < sc.Subscribers; s++ {
